@@ -289,7 +289,7 @@ static std::string x86_unrepresentable(const Operand_& o, bool is64, EmK ek) {
       RegType bt = m.base_type(), it = m.index_type();
       if (bt == RegType::kLabelTag) {
         // label ids valid in every unit: 0,1,2 (see Env)
-        if (m.base_id() > 2) return "mem-label-invalid";
+        if (m.base_id() > 64) return "mem-label-invalid";      // ids near label_count() are judged per history (label_ids_of)
       } else if (bt == RegType::kPC || bt == RegType::kNone) {
       } else if (bt == RegType::kGp16 || bt == RegType::kGp32 || bt == RegType::kGp64) {
         if (bt == RegType::kGp64 && !is64) return "mem-base-gp64-in-32bit-mode";
@@ -314,7 +314,7 @@ static std::string x86_unrepresentable(const Operand_& o, bool is64, EmK ek) {
       return "";
     }
     case OperandType::kLabel:
-      if (o.id() > 2) return "label-invalid";
+      if (o.id() > 64) return "label-invalid";                // ids near label_count() are judged per history (label_ids_of)
       return "";
     default: return "";
   }
@@ -575,26 +575,84 @@ static Error probe(Env& e) {
 }
 
 // ---------------------------------------------------------------------------------------------------------
+// label arguments of a call (decided per history: a label id names a label iff id < label_count() at that moment)
+// ---------------------------------------------------------------------------------------------------------
+static void label_ids_of(const Call& c, std::vector<uint32_t>& ids) {
+  ids.clear();
+  switch (c.kind) {
+    case 'B': case 'L': ids.push_back(uint32_t(c.a0)); break;
+    case 'X': ids.push_back(uint32_t(c.a0)); ids.push_back(uint32_t(c.a1)); break;
+    case 'N': if (c.a1 == uint64_t(LabelType::kLocal)) ids.push_back(uint32_t(c.a2)); break;
+    case 'I':
+      for (int i = 0; i < c.nops; i++) {
+        const Operand_& o = c.ops[i];
+        if (o.is_label()) ids.push_back(o.id());
+        else if (o.is_mem() && o.as<BaseMem>().base_type() == RegType::kLabelTag) ids.push_back(o.as<BaseMem>().base_id());
+      }
+      break;
+    default: break;
+  }
+}
+static const char* label_culprit(const Call& c) {
+  if (c.kind == 'N') return "parent-label-invalid";
+  if (c.kind == 'I') for (int i = 0; i < c.nops; i++) if (c.ops[i].is_mem()) return "mem-label-invalid";
+  return "label-invalid";
+}
+// the same call with every label id >= lc replaced by an id that is far away from the label table
+static Call with_far_labels(const Call& c0, uint32_t lc) {
+  Call c = c0;
+  auto far = [&](uint64_t v) -> uint64_t { return uint32_t(v) >= lc ? 12345u : v; };
+  switch (c.kind) {
+    case 'B': case 'L': c.a0 = far(c.a0); break;
+    case 'X': c.a0 = far(c.a0); c.a1 = far(c.a1); break;
+    case 'N': c.a2 = far(c.a2); break;
+    case 'I':
+      for (int i = 0; i < c.nops; i++) {
+        Operand_& o = c.ops[i];
+        bool lab = o.is_label() || (o.is_mem() && o.as<BaseMem>().base_type() == RegType::kLabelTag);
+        if (lab && o._base_id >= lc) o._base_id = 12345u;
+      }
+      break;
+    default: break;
+  }
+  return c;
+}
+
+// ---------------------------------------------------------------------------------------------------------
 // one history on one fresh emitter
 // ---------------------------------------------------------------------------------------------------------
 struct Verdict { bool bad = false; std::string clause, last, why; int call = -1; };
 
 // Runs `calls` (those with run[i]!=0).  judge: per-call oracle (primary run).  accepted[i] is written.
 // Returns false if the environment could not be set up (harness problem).
+// dyn_must[i] (primary run only): non-empty when call i was accepted although one of its label ids names no label of the
+// holder even at finalize time (Builder/Compiler: such a call has to make finalize fail).
 static bool run_history(const Cfg& cfg, const std::vector<Call>& calls, const std::vector<char>& run, bool judge,
-                        std::vector<char>& accepted, std::vector<int>& errs, Final& fin, Verdict& vd, UR& ur, int phase) {
+                        std::vector<char>& accepted, std::vector<int>& errs, Final& fin, Verdict& vd, UR& ur, int phase,
+                        std::vector<std::string>* dyn_must = nullptr, std::vector<char>* label_late = nullptr) {
   mark(phase == 1 ? 0 : phase, -1);
   Env e(cfg);
   if (!e.ok) return false;
   accepted.assign(calls.size(), 0);
   errs.assign(calls.size(), 0);
   Snap s0, s1;
+  std::vector<uint32_t> lids;
+  std::vector<uint32_t> lab_max(calls.size(), 0);       // largest label id an accepted call named (+1; 0 = none)
+  std::vector<char> late(calls.size(), 0);              // accepted although a label id named no label at the time of the call
   for (size_t i = 0; i < calls.size(); i++) {
     if (!run[i]) continue;
     const Call& c = calls[i];
     if (judge && !g_dead.empty() && g_dead.count(dead_key(cfg, c))) { ur.cnt["skipped_after_repeated_crash"]++; continue; }
     mark(phase, int(i));
     if (judge) take_snap(e, s0);
+    // label arguments: which of them name a label of the holder right now
+    uint32_t lc = uint32_t(e.code.label_count());
+    bool lbad = false, lnear = true;
+    uint32_t lbad_id = 0;
+    if (judge) {
+      label_ids_of(c, lids);
+      for (uint32_t id : lids) { lab_max[i] = std::max<uint32_t>(lab_max[i], id == Globals::kInvalidId ? id : id + 1); if (id >= lc) { lbad = true; lbad_id = id; if (id >= lc + 16) lnear = false; } }
+    }
     int h0 = e.eh.count;
     size_t off0 = 0; Section* sec0 = nullptr;
     if (BaseAssembler* a = e.assembler()) { off0 = a->offset(); sec0 = a->current_section(); }
@@ -620,9 +678,27 @@ static bool run_history(const Cfg& cfg, const std::vector<Call>& calls, const st
         fail("accepted-garbage", c.must, "accepted (bytes " + hexs + ") although this cannot be encoded: " + c.must);
         ur.notes.push_back(std::string("accepted-garbage ") + kArchName[cfg.arch] + " " + c.must + " @ " + c.tag);
       }
+      if (lbad) late[i] = 1;
+      if (lbad && c.must.empty()) {
+        if (cfg.ek == EASM) {
+          fail("accepted-garbage", label_culprit(c), "accepted (bytes " + hexs + ") although label id " + num(lbad_id) + " does not name a label of the holder (label_count() is " + num(lc) + ")");
+          ur.notes.push_back(std::string("accepted-garbage ") + kArchName[cfg.arch] + " " + label_culprit(c) + " (id >= label_count) @ " + c.tag);
+        } else if (lnear && !vd.bad) {
+          // Builder/Compiler may leave label ids to finalize - but then uniformly: an emitter that refuses this very call
+          // for a far-away id at the call must refuse it for label_count() and label_count()+1 too (range check off by one)
+          std::vector<Call> pre(calls.begin(), calls.begin() + i + 1);
+          pre[i] = with_far_labels(c, lc);
+          std::vector<char> r2(run.begin(), run.begin() + i + 1), acc2; std::vector<int> e2; Final f2; Verdict v2;
+          int keep = g_mark_override; g_mark_override = int(i);
+          bool ok2 = run_history(cfg, pre, r2, false, acc2, e2, f2, v2, ur, 5);
+          g_mark_override = keep; mark(phase, int(i));
+          if (ok2 && !acc2[i])
+            fail("accepted-garbage", label_culprit(c), "accepted although label id " + num(lbad_id) + " does not name a label of the holder (label_count() is " + num(lc) + "), while the same call with label id 12345 is refused at the call with " + errname(Error(e2[i])));
+        }
+      }
       if (inst && (em_has_state(e))) fail("one-shot-not-cleared", "on-success", "inst_options/extra_reg/inline_comment not cleared after a successful instruction");
       if (inst && cfg.ek == EASM) {
-        if (c.must.empty() && !hexs.empty())
+        if (c.must.empty() && !lbad && !hexs.empty())
           ur.acc.push_back(std::string(kArchName[cfg.arch]) + "\x1f" + hexs + "\x1f" + req_spec(cfg.arch, c) + "\x1f" + desc_call(cfg.arch, c) + "\x1f" + ser_unit(cfg, {c}));
         ur.cnt["accepted_calls"]++;
       }
@@ -665,6 +741,12 @@ static bool run_history(const Cfg& cfg, const std::vector<Call>& calls, const st
   Error ferr = e.em->finalize();
   fin.fin_err = int(ferr) * 1000000 + int(perr) * 1000 + int(berr);
   take_final(e, fin);
+  if (label_late) { label_late->assign(calls.size(), 0); for (size_t i = 0; i < calls.size(); i++) (*label_late)[i] = late[i]; }
+  if (dyn_must) {
+    dyn_must->assign(calls.size(), std::string());
+    uint32_t flc = uint32_t(e.code.label_count());
+    for (size_t i = 0; i < calls.size(); i++) if (accepted[i] && lab_max[i] && (lab_max[i] == Globals::kInvalidId || lab_max[i] - 1 >= flc)) (*dyn_must)[i] = label_culprit(calls[i]);
+  }
   if (judge && ferr != Error::kOk && cfg.hk != HNONE && e.eh.count == h0 && perr == Error::kOk && berr == Error::kOk) {
     if (!vd.bad) { vd.bad = true; vd.clause = "handler-count"; vd.last = "finalize:" + errname(ferr); vd.call = -1; vd.why = "finalize() failed with " + errname(ferr) + " but the error handler was never invoked"; }
   }
@@ -703,7 +785,9 @@ static bool judge_calls(const Cfg& cfg, const std::vector<Call>& calls, const st
   std::vector<int> errs;
   Final f1, f2;
   Verdict vd;
-  if (!run_history(cfg, calls, run, true, accepted, errs, f1, vd, ur, localizing ? 5 : 1)) return false;
+  std::vector<std::string> dyn_must;
+  std::vector<char> label_late;
+  if (!run_history(cfg, calls, run, true, accepted, errs, f1, vd, ur, localizing ? 5 : 1, &dyn_must, &label_late)) return false;
   ur.cnt["traces"]++;
   auto report = [&](const Call* c, const std::string& clause, const std::string& last, const std::string& why, const std::vector<Call>& rp) {
     Call none; none.kind = 'F';
@@ -751,7 +835,7 @@ static bool judge_calls(const Cfg& cfg, const std::vector<Call>& calls, const st
   if (cfg.ek != EASM && f1.fin_err == 0) {
     int first_must = -1;
     for (size_t i = 0; i < calls.size(); i++) {
-      if (!accepted[i] || calls[i].must.empty()) continue;
+      if (!accepted[i] || (calls[i].must.empty() && dyn_must[i].empty())) continue;
       if (first_must < 0) first_must = int(i);
       if (calls.size() > 1 && !localizing) {
         // several calls: blame the one that shows it alone (another accepted call may have destroyed the node list)
@@ -762,12 +846,15 @@ static bool judge_calls(const Cfg& cfg, const std::vector<Call>& calls, const st
     }
     if (first_must >= 0) {
       const Call& c = calls[first_must];
-      report(&c, "accepted-garbage", c.must, "accepted and finalized without any error although this is invalid: " + c.must, calls);
+      std::string m = c.must.empty() ? dyn_must[first_must] : c.must;
+      report(&c, "accepted-garbage", m, "accepted and finalized without any error although this is invalid: " + m + (c.must.empty() ? " (the id names no label of the holder, not even at finalize)" : ""), calls);
       return true;
     }
     bool any = false; for (char a : accepted) any |= a != 0;
     // (a Builder serializes section by section: with a second section in use the label/relocation state at each node legitimately differs)
     for (size_t i = 0; i < calls.size(); i++) if (accepted[i] && calls[i].kind == 'S' && calls[i].a0 != 2) any = false;
+    // (a label id that only comes into existence after the call is resolved at finalize by a Builder, at the call by the Assembler)
+    for (size_t i = 0; i < calls.size(); i++) if (accepted[i] && label_late[i]) any = false;
     if (any) {
       Cfg ac = cfg; ac.ek = EASM;
       Final f3; std::vector<char> acc3; Verdict dummy; std::vector<int> e3;
@@ -835,6 +922,7 @@ static std::vector<Sym> build_w_x86() {
   add(x86::Mem(xmm0, 0)); add(x86::Mem(st(1), 0)); add(x86::Mem(k(1), 8)); add(x86::Mem(gpb_lo(0), 0)); add(x86::Mem(SReg(2), 0));
   add(x86::Mem(rax, st(1), 0, 0)); add(x86::Mem(rax, gpw(1), 0, 0)); add(x86::Mem(rax, gpb_lo(1), 1, 0)); add(x86::Mem(eax, rcx, 0, 0)); add(x86::Mem(rax, mm(1), 0, 0));
   add(ptr(rip, 0)); add(ptr(rip, 0x1000)); add(ptr(Rip(1), 0)); add(x86::Mem(rip, rcx, 0, 0)); add(x86::Mem(rip, xmm1, 0, 0));
+  add(ptr(Label(3))); add(ptr(Label(4), 4));
   add(ptr(Label(0))); add(ptr(Label(1), 4)); add(ptr(Label(12345))); add(ptr(Label(Globals::kInvalidId))); add(ptr(Label(0), rcx, 2)); add(ptr(Label(1), ecx, 0)); add(ptr(Label(12345), xmm1, 0));
   for (uint32_t sg : {1u, 5u, 6u, 7u}) { x86::Mem m = ptr(eax); m.set_segment(sg); add(m); }
   { x86::Mem m = ptr(rax, 8); m.set_segment(7); add(m); }
@@ -847,6 +935,7 @@ static std::vector<Sym> build_w_x86() {
   for (uint32_t sz : {1u, 4u, 8u, 16u, 64u}) add(ptr(rax, rcx, 1, 8, sz));
   // labels / immediates
   add(Label(0)); add(Label(1)); add(Label(12345)); add(Label(Globals::kInvalidId));
+  add(Label(3)); add(Label(4));                          // label_count() and label_count()+1 of the environment (ids 0..2 exist)
   add(Imm(0)); add(Imm(-1)); add(Imm(INT64_MIN)); add(Imm(uint64_t(0xFFFFFFFFFFFFFFFFull))); add(Imm(1)); add(Imm(0x7FFFFFFF)); add(Imm(0x100));
   return w;
 }
@@ -1059,7 +1148,7 @@ static std::vector<FVal> field_alphabet(const FieldT& f, EmK ek) {
                 if (f.p1 >= 0) a.push_back({-1, "immediate-range"}); break;
     case F_IMMW: a = {{0, 0}, {1, 0}, {-1, 0}, {4095, 0}, {4096, 0}, {0x1000000, 0}, {65535, 0}, {65536, 0}, {INT64_MIN, 0}, {INT64_MAX, 0}}; break;
     case F_LOGIMM: a = {{0xFF, 0}, {0x5555555555555555ll, 0}, {0, "logical-immediate"}, {-1, "logical-immediate"}, {0x1234, "logical-immediate"}}; break;
-    case F_LABEL: a = {{0, 0}, {1, 0}, {12345, "label-invalid"}, {int64_t(Globals::kInvalidId), "label-invalid"}}; break;
+    case F_LABEL: a = {{0, 0}, {1, 0}, {12345, "label-invalid"}, {int64_t(Globals::kInvalidId), "label-invalid"}, {3, 0}, {4, 0}}; break;   // 3 = label_count() of the (single call) unit, 4 = one more: judged when the call is made (run_history)
     case F_OFF: {
       int64_t sz = f.p2;
       std::vector<int64_t> vs = {0, 1, -1, sz, -sz, sz / 2 ? sz / 2 : 3, 255, 256, -256, -257, 4095 * sz, 4095 * sz + sz, 63 * sz, 64 * sz, -64 * sz, -65 * sz, 32760, INT32_MAX, INT32_MIN};
@@ -1313,6 +1402,9 @@ static std::vector<Call> weird_misc_calls(ArchK arch) {
   // bind
   x.push_back(misc('B', 1)); x.push_back(misc('B', 0, 0, 0, "label-already-bound")); x.push_back(misc('B', 12345, 0, 0, "label-invalid")); x.push_back(misc('B', INV, 0, 0, "label-invalid"));
   x.push_back(misc('B', 2));
+  // ids at the end of the label table: the environment owns 0..2, a preceding new_label() adds 3.  Whether 3 / 4 / 5 name a
+  // label is decided when the call is made (run_history); the far ids above carry their reason statically.
+  x.push_back(misc('B', 3)); x.push_back(misc('B', 4)); x.push_back(misc('B', 5));
   // align
   for (uint64_t mode : {0ull, 1ull, 2ull, 3ull, 255ull})
     for (uint64_t al : {0ull, 1ull, 3ull, 64ull, 65ull, 128ull, 0xFFFFFFFFull}) {
@@ -1336,6 +1428,7 @@ static std::vector<Call> weird_misc_calls(ArchK arch) {
     x.push_back(misc('L', 1, sz, 0, ok ? nullptr : "label-data-size"));
     x.push_back(misc('L', 0, sz, 0, ok ? nullptr : "label-data-size"));
   }
+  x.push_back(misc('L', 3, 0)); x.push_back(misc('L', 4, 4));
   x.push_back(misc('L', 12345, 0, 0, "label-invalid")); x.push_back(misc('L', INV, 4, 0, "label-invalid")); x.push_back(misc('L', 12345, 3, 0, "label-invalid"));
   // embed_label_delta
   for (uint64_t sz : {0ull, 1ull, 3ull, 4ull, 8ull, 9ull}) {
@@ -1343,6 +1436,7 @@ static std::vector<Call> weird_misc_calls(ArchK arch) {
     x.push_back(misc('X', 1, 0, sz, ok ? nullptr : "label-data-size"));
     x.push_back(misc('X', 0, 0, sz, ok ? nullptr : "label-data-size"));
   }
+  x.push_back(misc('X', 3, 0, 4)); x.push_back(misc('X', 0, 3, 4)); x.push_back(misc('X', 4, 1, 0)); x.push_back(misc('X', 1, 4, 0));
   x.push_back(misc('X', 12345, 0, 4, "label-invalid")); x.push_back(misc('X', 0, 12345, 4, "label-invalid")); x.push_back(misc('X', INV, INV, 0, "label-invalid")); x.push_back(misc('X', 1, 12345, 3, "label-invalid"));
   // section
   x.push_back(misc('S', 1)); x.push_back(misc('S', 2)); x.push_back(misc('S', 3, 0, 0, "section-of-another-holder")); x.push_back(misc('S', 0, 0, 0, "section-nullptr"));
@@ -1357,6 +1451,18 @@ static std::vector<Call> weird_misc_calls(ArchK arch) {
   x.push_back(misc('N', 1, 77, INV, "label-type-invalid")); x.push_back(misc('N', 1, ANON, 0)); x.push_back(misc('N', 2, LOCAL, 0));
   // a few invalid instructions as the middle step
   Call i; i.kind = 'I';
+  for (uint32_t lid : {3u, 4u}) {      // label operands at the end of the label table
+    Call j; j.kind = 'I';
+    if (arch == AA64) {
+      j.id = a64::Inst::kIdB; j.nops = 1; j.ops[0] = Label(lid); j.tag = "b"; x.push_back(j);
+      j.id = a64::Inst::kIdAdr; j.nops = 2; j.ops[0] = a64::x0; j.ops[1] = Label(lid); j.tag = "adr"; x.push_back(j);
+      j.id = a64::Inst::kIdLdr; j.nops = 2; j.ops[0] = a64::x0; j.ops[1] = a64::Mem(Label(lid)); j.tag = "ldr"; x.push_back(j);
+    } else {
+      j.id = x86::Inst::kIdJmp; j.nops = 1; j.ops[0] = Label(lid); j.tag = "jmp"; x.push_back(j);
+      j.id = x86::Inst::kIdLea; j.nops = 2; j.ops[0] = x86::eax; j.ops[1] = x86::ptr(Label(lid)); j.tag = "lea"; x.push_back(j);
+      j.id = x86::Inst::kIdMov; j.nops = 2; j.ops[0] = x86::eax; j.ops[1] = x86::ptr(Label(lid), 4); j.tag = "mov"; x.push_back(j);
+    }
+  }
   if (arch == AA64) {
     i.id = a64::Inst::kIdB; i.nops = 1; i.ops[0] = Label(12345); i.tag = "b"; i.must = "label-invalid"; x.push_back(i);
     i.id = a64::Inst::kIdAdd; i.nops = 3; i.ops[0] = a64::x0; i.ops[1] = a64::x1; i.ops[2] = a64::Gp::make_r64(40); i.tag = "add"; i.must = "gp-id"; x.push_back(i);
@@ -1376,7 +1482,11 @@ static void gen_misc(Gen& g, bool thorough) {
     for (EmK ek : {EASM, EBUILDER, ECOMPILER}) for (HdK hk : {HREC, HTHROW, HNONE}) {
       long long ck = (long long)(int(arch) * 9 + int(ek) * 3 + int(hk));
       for (size_t x = 0; x < X.size(); x++) for (size_t a = 0; a < V.size(); a++) for (size_t b = 0; b < V.size(); b++) {
-        if (!thorough && b != (a + x) % V.size()) continue;    // quick: every X with every valid predecessor, the successor rotates
+        bool end_of_table = false;                              // X names a label id at the end of the label table
+        { std::vector<uint32_t> ids; label_ids_of(X[x], ids); for (uint32_t id : ids) if (id >= 3 && id <= 5) end_of_table = true; }
+        // quick: every X with every valid predecessor, the successor rotates (+ new_label() as successor when X names an id that
+        // new_label() is going to hand out next)
+        if (!thorough && b != (a + x) % V.size() && !(end_of_table && V[b].kind == 'n')) continue;
         if (!g.want_cfg(ck)) continue;
         Unit u; u.cfg.arch = arch; u.cfg.ek = ek; u.cfg.hk = hk; u.cfg.logger = ((x + a + b) % 5) == 0; u.group = "misc:3-step";
         u.calls.push_back(V[a]); u.calls.push_back(X[x]); u.calls.push_back(V[b]);
